@@ -69,6 +69,8 @@ def check(tier, seed):
             s = bytes([0xB5, 0x62, c, i, 0xE9, 0x03]) + follow + G.frame(c, i, b'')
             impl = G.impl_ubx([(c, i)], [('P', s)])
             exp = f'rx=2 q=[pkt.{c}.{i}.{c ^ i:02x} pkt.{c}.{i}.-] out=[]'
+            if n_bad > 10:
+                break               # enough evidence; a parser broken for every class/id makes each further run slow
             if impl != exp:
                 n_bad += 1
                 if n_bad <= 3:
